@@ -48,6 +48,9 @@ func refYAML(c refCase, declOrder int) string {
 			}
 			if s.Task != "" {
 				fmt.Fprintf(&b, "%stask: %s\n", first, s.Task)
+				if s.Pipe != "" {
+					fmt.Fprintf(&b, "      pipeline: %s\n", s.Pipe)
+				}
 			} else {
 				fmt.Fprintf(&b, "%spipeline: %s\n", first, s.Pipe)
 			}
@@ -73,8 +76,8 @@ func CheckC18(env *core.Env, rep *core.Report) *core.Result {
 		cases = append(cases, c)
 	}
 	e.note("Refs", r, fmt.Sprintf("%d configurations: the base one and one per broken reference (stage->task x5, stage->pipeline x1, depends_on unknown / other pipeline's stage x4 each, duplicate stage name x4, watcher->task, inclusion cycles of length 1, 2, 3); WellFormed evaluated; OnlyBaseWellFormed holds", len(cases)))
-	if len(cases) != 30 {
-		core.Broken("Refs emitted %d cases, expected 30", len(cases))
+	if len(cases) != 32 {
+		core.Broken("Refs emitted %d cases, expected 32", len(cases))
 	}
 	sort.Slice(cases, func(i, j int) bool { return core.JSON(cases[i].Mut) < core.JSON(cases[j].Mut) })
 	n := 0
@@ -114,6 +117,9 @@ func CheckC18(env *core.Env, rep *core.Report) *core.Result {
 			// consequence: pipelines of an accepted configuration run to completion
 			if list.Exit == 0 {
 				for _, p := range []string{"p1", "p2", "p3", "p4"} {
+					if g := e.run(d, "", 10*time.Second, "-c", f, "graph", p); g.TimedOut || g.Crashed() {
+						add("accepted-pipeline-breaks-graph:"+kind, fmt.Sprintf("`graph %s` of an accepted configuration hung or crashed", p))
+					}
 					run := e.run(d, "", 10*time.Second, "-c", f, "--raw", p)
 					n++
 					if run.TimedOut {
